@@ -226,7 +226,7 @@ def run_history(kind, rng, nops, fail_at, out, script=None):
 def run(ctx):
     out = Outcome()
     rng = ctx.rng
-    per_kind = ctx.budget(10, 100)
+    per_kind = ctx.budget(10, 50)
     nops = 10 if ctx.tier == 'quick' else 25
     lines, meta = [], []
     for kind in BACKENDS:
